@@ -87,6 +87,13 @@ def _qr_first_step(A):
     m, n = A.chunksize
     k, _ = A.numblocks
 
+    if any(c < n for c in A.chunks[0]):
+        # the R factor of a block with fewer rows than columns is not n x n
+        raise ValueError(
+            f"Every row chunk must have at least as many rows as there are columns ({n}), "
+            f"but row chunks are {A.chunks[0]}. Consider rechunking."
+        )
+
     # Q1 has same shape and chunks as A
     R1_shape = (n * k, n)
     R1_chunks = ((n,) * k, (n,))
